@@ -26,7 +26,7 @@ RULE = ('each run: a seeded netlist over the whole catalogue (combinational + se
 REAL = ['py4hw.base.Wire.put/prepare/settle', 'all library primitives', 'py4hw.logic.simulation.Waveform/Sequence/RandomValue']
 STUB = ['stimulus', 'monitoring listener']
 ASSUMPTIONS = ['observation = Wire.value of every wire reachable from the HWSystem (wires created by any Logic, wires attached to any port)']
-PROBES = ['adv_constant', 'adv_reset_value', 'adv_sequence', 'adv_poke', 'listener_observation', 'waveform_samples', 'random_value']
+PROBES = ['double_prepare_block', 'adv_constant', 'adv_reset_value', 'adv_sequence', 'adv_poke', 'listener_observation', 'waveform_samples', 'random_value']
 
 
 def adversarial(rng, w):
@@ -87,6 +87,8 @@ def run(scn, log, st):
     d = scn['design']
     for a in scn['adv']:
         st.probe(a)
+    if any(n['kind'] == 'DefaultOverride' for n in d['nodes']):
+        st.probe('double_prepare_block')
     b = netlist.Built(d).build(scn['order'])
     for j, rv in enumerate(d.get('random_value', [])):
         w = b.hw.wire('rnd%d' % j, rv['w'])
